@@ -51,6 +51,9 @@ type Failure struct {
 	At    ssa.Instruction
 	Fn    *ssa.Function
 	Proof string
+	// Form + K >= 0 is what the caller cannot establish
+	Form string
+	K    int64
 }
 
 // Req is a precondition of a function over its parameter-rooted atoms.
@@ -58,6 +61,14 @@ type Req struct {
 	G      Ineq
 	Origin *Obligation
 	Chain  []string
+	// Sites: where in the function the requirement arises (the obligation itself, or the call
+	// sites of the callee it comes from) with the goal to establish there
+	Sites []reqSite
+}
+
+type reqSite struct {
+	At   ssa.Instruction
+	Goal Ineq
 }
 
 type Engine struct {
@@ -90,6 +101,11 @@ type Engine struct {
 	// struct without assigning the field
 	fieldMin  map[*types.Var]int64
 	globalLen map[*ssa.Global]int64
+
+	// entry: requirements of a function that its callers are held to (each call site either
+	// establishes them or is reported) and that therefore hold on entry; only requirements over
+	// the parameters' own values and lengths (nothing loaded from memory)
+	entry map[*ssa.Function][]Ineq
 }
 
 func New(p *model.Prog) *Engine {
@@ -182,9 +198,7 @@ func (e *Engine) factsAt(c *fnCtx, at ssa.Instruction, goal Lin, hyp []Ineq) []I
 			diseq = append(diseq, d)
 		}
 	}
-	for _, h := range hyp {
-		_ = h
-	}
+	facts = append(facts, e.entry[c.fn]...)
 	for _, sf := range c.success {
 		if sf.at != at && dominatesInstr(sf.at, at) {
 			facts = append(facts, sf.facts...)
@@ -358,16 +372,18 @@ func (e *Engine) proveH(c *fnCtx, at ssa.Instruction, goal Ineq, hyp []Ineq, dep
 		if !(ph.Block() == at.Block() || ph.Block().Dominates(at.Block())) {
 			continue
 		}
-		atom := Atom{Kind: 'v', Root: ph}
-		coef := goal.L.C[atom]
 		okAll := true
-		for i, edge := range ph.Edges {
+		for i := range ph.Edges {
 			pred := ph.Block().Preds[i]
-			sub := goal.L.Clone()
-			delete(sub.C, atom)
-			sub = sub.Add(c.lin(edge).Scale(coef))
-			var h []Ineq
 			back := ph.Block() == pred || ph.Block().Dominates(pred)
+			// all phis of this block are replaced together by their operands on this edge; over a
+			// back edge every other atom must mean the same thing in the next iteration
+			sub, okSub := substPhisOnEdge(c, goal.L, ph.Block(), i, back)
+			if !okSub {
+				okAll = false
+				break
+			}
+			var h []Ineq
 			if back {
 				h = append(h, Ineq{goal.L, "induction hypothesis"})
 			}
@@ -384,7 +400,59 @@ func (e *Engine) proveH(c *fnCtx, at ssa.Instruction, goal Ineq, hyp []Ineq, dep
 			return true, "per-edge/induction over " + valueName(ph)
 		}
 	}
+	// auxiliary invariants: a goal that also mentions values recomputed in the loop cannot be
+	// carried over a back edge itself, but "phi >= 0" for the phis it adds can; with those as
+	// hypotheses the goal may follow directly
+	if depth == 0 {
+		var aux []Ineq
+		for _, ph := range phis {
+			if !(ph.Block() == at.Block() || ph.Block().Dominates(at.Block())) {
+				continue
+			}
+			atom := Atom{Kind: 'v', Root: ph}
+			if goal.L.C[atom] <= 0 || len(goal.L.C) < 2 {
+				continue
+			}
+			if ok, _ := e.proveH(c, at, Ineq{Var(atom), "loop invariant"}, hyp, depth+1); ok {
+				aux = append(aux, Ineq{Var(atom), "induction: " + valueName(ph) + " >= 0 around the loop"})
+			}
+		}
+		if len(aux) > 0 {
+			facts := e.factsAt(c, at, goal.L, append(append([]Ineq{}, hyp...), aux...))
+			if infeasible(append(append(append([]Ineq{}, facts...), hyp...), append(aux, neg)...)) {
+				return true, aux[0].Why
+			}
+		}
+	}
 	return false, ""
+}
+
+// substPhisOnEdge rewrites l for the k-th incoming edge of block b: every atom that is the value
+// of a phi of b becomes that phi's k-th operand. Over a back edge (strict) the other atoms must
+// denote the same thing in the next iteration: parameters, constants, globals, or values
+// defined in a block that strictly dominates b; otherwise the rewrite is refused.
+func substPhisOnEdge(c *fnCtx, l Lin, b *ssa.BasicBlock, k int, strict bool) (Lin, bool) {
+	out := Const(l.K)
+	for a, coef := range l.C {
+		if ph, ok := a.Root.(*ssa.Phi); ok && ph.Block() == b {
+			if a.Kind == 'v' && a.Path == "" {
+				out = out.Add(c.lin(ph.Edges[k]).Scale(coef))
+				continue
+			}
+			if strict {
+				return l, false
+			}
+		} else if strict {
+			if in, isInstr := a.Root.(ssa.Instruction); isInstr {
+				rb := in.Block()
+				if rb == nil || rb == b || !rb.Dominates(b) {
+					return l, false
+				}
+			}
+		}
+		out = out.Add(Var(a).Scale(coef))
+	}
+	return out, true
 }
 
 // proveAtEdge proves a goal at the end of block pred on the edge pred->succ: the facts are
@@ -765,9 +833,11 @@ func (e *Engine) liftable(c *fnCtx, at ssa.Instruction, g Ineq) (Ineq, bool) {
 				nEntry++
 				continue
 			}
-			sub := g.L.Clone()
-			delete(sub.C, a)
-			sub = sub.Add(c.lin(edge).Scale(coef))
+			sub, okSub := substPhisOnEdge(c, g.L, ph.Block(), i, true)
+			if !okSub {
+				inductive = false
+				break
+			}
 			term := pred.Instrs[len(pred.Instrs)-1]
 			if ok, _ := e.proveAtEdge(c, term, pred, ph.Block(), Ineq{sub, g.Why}, []Ineq{{g.L, "induction hypothesis"}}, 1); !ok {
 				inductive = false
@@ -814,6 +884,7 @@ func (e *Engine) Run(roots map[*ssa.Function]bool) {
 	prevSig := ""
 	for round := 0; round < e.Depth+3; round++ {
 		e.ctx = map[*ssa.Function]*fnCtx{}
+		e.entry = nil
 		newReqs := map[*ssa.Function][]Req{}
 		for _, fn := range fns {
 			c := e.fc(fn)
@@ -823,7 +894,7 @@ func (e *Engine) Run(roots map[*ssa.Function]bool) {
 						continue
 					}
 					if lg, ok := e.liftable(c, ob.Instr, g); ok {
-						newReqs[fn] = append(newReqs[fn], Req{G: lg, Origin: ob})
+						newReqs[fn] = append(newReqs[fn], Req{G: lg, Origin: ob, Sites: []reqSite{{ob.Instr, g}}})
 					}
 				}
 			}
@@ -844,13 +915,14 @@ func (e *Engine) Run(roots map[*ssa.Function]bool) {
 							if ok2, _ := e.prove(c, in, g); ok2 {
 								continue
 							}
+							g0 := g
 							if !paramRooted(fn, g.L) {
 								if sg, ok := e.strengthenToParams(c, g); ok {
 									g = sg
 								}
 							}
 							if paramRooted(fn, g.L) && len(rq.Chain) < e.Depth {
-								newReqs[fn] = append(newReqs[fn], Req{G: g, Origin: rq.Origin, Chain: append(append([]string{}, rq.Chain...), model.FnName(callee))})
+								newReqs[fn] = append(newReqs[fn], Req{G: g, Origin: rq.Origin, Chain: append(append([]string{}, rq.Chain...), model.FnName(callee)), Sites: []reqSite{{in, g0}}})
 							}
 						}
 					}
@@ -859,17 +931,25 @@ func (e *Engine) Run(roots map[*ssa.Function]bool) {
 		}
 		// dedup
 		for fn, rs := range newReqs {
-			seen := map[string]bool{}
+			seen := map[string]int{}
 			var out []Req
 			for _, r := range rs {
 				k := r.G.L.String() + "|" + r.Origin.Expr + "|" + model.FnName(r.Origin.Fn)
-				if !seen[k] {
-					seen[k] = true
+				if i, dup := seen[k]; dup {
+					out[i].Sites = append(out[i].Sites, r.Sites...)
+				} else {
+					seen[k] = len(out)
 					out = append(out, r)
 				}
 			}
 			newReqs[fn] = out
 		}
+		for _, fn := range fns {
+			if len(newReqs[fn]) > 1 && !roots[fn] && e.hasScopedCaller(fn) {
+				newReqs[fn] = e.pruneReqs(fn, newReqs[fn])
+			}
+		}
+		e.entry = nil
 		e.reqs = newReqs
 		var sig []string
 		for fn, rs := range newReqs {
@@ -886,6 +966,17 @@ func (e *Engine) Run(roots map[*ssa.Function]bool) {
 	}
 	// pass 2: final verdicts
 	e.ctx = map[*ssa.Function]*fnCtx{}
+	entryAll := map[*ssa.Function][]Ineq{}
+	for _, fn := range fns {
+		if roots[fn] || !e.hasScopedCaller(fn) {
+			continue
+		}
+		for _, r := range e.reqs[fn] {
+			if pureParam(r.G.L) {
+				entryAll[fn] = append(entryAll[fn], Ineq{r.G.L, "guard: required of every caller"})
+			}
+		}
+	}
 	byOb := map[*Obligation]bool{}
 	var all []*Obligation
 	for _, fn := range fns {
@@ -908,6 +999,15 @@ func (e *Engine) Run(roots map[*ssa.Function]bool) {
 					}
 					proofs = append(proofs, "requires "+lg.L.String()+">=0 of callers")
 					continue
+				}
+				if len(entryAll[fn]) > 0 {
+					e.entry = entryAll
+					ok, why = e.prove(c, ob.Instr, g)
+					e.entry = nil
+					if ok {
+						proofs = append(proofs, "given what every caller is required to establish: "+why)
+						continue
+					}
 				}
 				ob.Status = Unproved
 				ob.FailAt, ob.FailFn = ob.Instr, fn
@@ -943,6 +1043,14 @@ func (e *Engine) Run(roots map[*ssa.Function]bool) {
 						if ok2, _ := e.prove(c, in, g); ok2 {
 							continue
 						}
+						if len(entryAll[fn]) > 0 {
+							e.entry = entryAll
+							ok2, _ := e.prove(c, in, g)
+							e.entry = nil
+							if ok2 {
+								continue
+							}
+						}
 						lg := g
 						if !paramRooted(fn, lg.L) {
 							if sg, ok := e.strengthenToParams(c, g); ok {
@@ -970,7 +1078,7 @@ func (e *Engine) Run(roots map[*ssa.Function]bool) {
 							}
 						}
 						if !dup && !(orig.Status == Unproved && len(orig.Fails) == 0) {
-							orig.Fails = append(orig.Fails, Failure{At: in, Fn: fn, Proof: proof})
+							orig.Fails = append(orig.Fails, Failure{At: in, Fn: fn, Proof: proof, Form: g.L.Sub(Const(g.L.K)).String(), K: g.L.K})
 						}
 						if orig.Status != Unproved {
 							orig.Status = Unproved
@@ -984,6 +1092,66 @@ func (e *Engine) Run(roots map[*ssa.Function]bool) {
 		}
 	}
 	e.Obs = all
+}
+
+// pureParam: the form mentions only the values, lengths and capacities of parameters (nothing
+// reached through a pointer, which a store in the function could change after entry).
+func pureParam(l Lin) bool {
+	for a := range l.C {
+		if _, ok := a.Root.(*ssa.Parameter); !ok || a.Path != "" {
+			return false
+		}
+	}
+	return len(l.C) > 0
+}
+
+// pruneReqs drops the requirements of fn that follow from its other requirements. Every
+// requirement kept is demanded at every call site, hence holds on entry; a requirement is
+// dropped only when, at each of its sites, it is provable from the facts there plus the
+// essential requirements E = those not provable even from all the others. The dropped ones are
+// thus implied by a subset of what is kept, whatever the order of consideration.
+func (e *Engine) pruneReqs(fn *ssa.Function, rs []Req) []Req {
+	c := e.fc(fn)
+	provable := func(r Req, facts []Ineq) bool {
+		if len(r.Sites) == 0 {
+			return false
+		}
+		e.entry = map[*ssa.Function][]Ineq{fn: facts}
+		defer func() { e.entry = nil }()
+		for _, s := range r.Sites {
+			if ok, _ := e.prove(c, s.At, s.Goal); !ok {
+				return false
+			}
+		}
+		return true
+	}
+	factsOf := func(keep func(i int) bool) []Ineq {
+		var out []Ineq
+		for i, r := range rs {
+			if keep(i) && pureParam(r.G.L) {
+				out = append(out, Ineq{r.G.L, "guard: required of every caller"})
+			}
+		}
+		return out
+	}
+	essential := make([]bool, len(rs))
+	for i, r := range rs {
+		key := r.G.L.String()
+		others := factsOf(func(j int) bool { return rs[j].G.L.String() != key })
+		essential[i] = len(others) == 0 || !provable(r, others)
+	}
+	ess := factsOf(func(j int) bool { return essential[j] })
+	var out []Req
+	for i, r := range rs {
+		if !essential[i] && len(ess) > 0 && provable(r, ess) {
+			if os.Getenv("LALCHECK_PO_DEBUG") != "" {
+				fmt.Printf("PRUNED %s: %s >= 0 (%s) given %v\n", model.FnName(fn), r.G.L.String(), r.Origin.Expr, ess)
+			}
+			continue
+		}
+		out = append(out, r)
+	}
+	return out
 }
 
 func obKey(ob *Obligation) string {
